@@ -274,10 +274,20 @@ def r31(ctx, R):
     # the constructor hands rqparams to helpers of the class: fold them in
     rq_param = rw_init.params[2] if len(rw_init.params) > 2 else None
     rw_derived, rw_attrs = _derived(rw_init, rq_param)
+    # (bound through the call sites, whatever the helpers call the
+    # parameter)
+    handed = {}
+    for site in ctx.cg.calls_in(rw_init):
+        for cal in site.callees:
+            if cal in rw_cls_funcs and cal is not rw_init:
+                for pn in cal.params:
+                    a = C.arg_for_param(site.node, cal, pn)
+                    if isinstance(a, ast.Name) and a.id == rq_param:
+                        handed[cal] = pn
     for f in rw_cls_funcs:
-        if f is rw_init or rq_param not in f.params:
+        if f is rw_init or f not in handed:
             continue
-        d2, a2 = _derived(f, rq_param)
+        d2, a2 = _derived(f, handed[f])
         for k, v in d2.items():
             rw_derived.setdefault(k, set()).update(v)
         rw_attrs |= a2
